@@ -99,6 +99,8 @@ package ion
 //@ model io.ReadFull vcModelReadFull
 //@ model io.CopyN vcModelCopyN
 //@ model (*bytes.Buffer).Bytes vcModelBufferBytes
+//@ model (*strings.Builder).WriteString vcModelSBWriteString
+//@ model (*strings.Builder).String vcModelSBString
 
 // ---------------------------------------------------------------------------
 // bitstream.go
@@ -1094,9 +1096,20 @@ package ion
 //@ trusted assumed pure (strconv-based formatting is outside the engine's subset)
 //@ modifies nothing
 
+// The three text layouts of a decimal (C14): an integer gets a trailing point; a negative
+// scale an explicit exponent; a positive scale a point inside the digits when enough digits
+// precede it, otherwise a point after the first digit and a negative exponent. The sign is
+// never separated from the first digit, and negative zero is written as -0.
 //@ func (*Decimal).String
-//@ trusted assumed pure (big.Int string surgery is outside the engine's subset)
+//@ split returns
+//@ requires specDecWF(d)
 //@ modifies nothing
+//@ ensures[C14] d.scale == 0 && d.isNegZero ==> result == "-0."
+//@ ensures[C14] d.scale == 0 && !d.isNegZero ==> len(result) == len(d.n.String())+1 && result[len(result)-1] == '.'
+//@ ensures[C14] d.scale > 0 && d.isNegZero ==> len(result) >= 3 && result[0] == '-' && result[1] == '0' && result[2] == 'd'
+//@ ensures[C14] d.scale > 0 && !d.isNegZero && d.n.Sign() < 0 ==> len(result) >= 2 && result[0] == '-' && result[1] == d.n.String()[1]
+//@ ensures[C14] d.scale > 0 && !d.isNegZero && d.n.Sign() >= 0 ==> len(result) >= 1 && result[0] == d.n.String()[0]
+//@ safe[C06,C14]
 
 //@ func (Timestamp).String
 //@ trusted assumed pure (time.Format-based formatting is outside the engine's subset)
